@@ -103,13 +103,14 @@ def run(ctx):
     u = ctx.unit("D:search(memory_warm_start)", "D",
                  "search() with memory_warm_start frames: arbitrary subsets of the space with scores that differ from the "
                  "objective's, duplicate rows, extra and shuffled columns, frames taken from the previous call's search_data "
-                 "(chained); spaces in ascending/descending/shuffled order, int and float; the model driver loads the same "
+                 "(chained), the memory given as True or as a multiprocessing.Manager().dict(); spaces in ascending/descending/shuffled order, int and float; the model driver loads the same "
                  "frame; non-trivial = a frame position is visited; distinct by spec")
     ctx.monitor_rule = ("no parameter set of the frame is ever passed to the objective; its rows report the frame's score "
                         "(last such row); all other rows report objective(parameters)")
     rng = ctx.sub_rng("d")
     names = gen.FAST if ctx.quick else gen.ALL
     results = []
+    mgr = None
     for i in range(100 if ctx.quick else 700):
         name = names[i % len(names)]
         spec = dunit.general_spec(rng, name, max_calls=3, metrics=0, sizes=(2, 3, 5), max_points=30, n_max=14, memory=True, dups=0.25,
@@ -119,18 +120,27 @@ def run(ctx):
         # chained: run call by call so that later frames can be earlier search_data
         prev = None
         spec["calls"][0]["memory_warm_start"] = make_frame(rng, spec["space"], spec["table"], "subset")
+        if i < 4 or rng.random() < 0.12:
+            # the memory given as a shared dictionary (multiprocessing.Manager().dict()) together with the frame: the frame's rows must be
+            # loaded into THAT dictionary
+            if mgr is None:
+                import multiprocessing as _mp
+                mgr = _mp.get_context("fork").Manager()
+            spec["shared_memory_call0"] = True
         r = None
         for ci in range(len(spec["calls"])):
             if ci > 0:
                 kind = rng.choice(["prev", "subset", "none"])
                 if kind != "none":
                     spec["calls"][ci]["memory_warm_start"] = make_frame(rng, spec["space"], spec["table"], kind, prev)
-            part = dict(spec, calls=spec["calls"][:ci + 1])
+            part = dict(spec, calls=[dict(c_) for c_ in spec["calls"][:ci + 1]])
+            if spec.get("shared_memory_call0"):
+                part["calls"][0]["memory"] = mgr.dict()        # a fresh shared dictionary for every (re-)run of the call sequence
             r = dunit.run_case(part)
             if r["exc"] is not None or r["opt"] is None:
                 break
             prev = r["opt"].search_data
-        results.append((spec if r["exc"] is None else dict(spec, calls=spec["calls"][:ci + 1]), r))
+        results.append((part, r))
         spec_used = results[-1][0]
         key = (spec["name"], spec["seed"], tuple(c["n_iter"] for c in spec["calls"]))
         visited = False
@@ -144,6 +154,11 @@ def run(ctx):
         ctx.monitor_runs += 1
         ctx.monitor_nontrivial.add(key)
         monitor(ctx, spec_used, r)
+    if mgr is not None:
+        try:
+            mgr.shutdown()
+        except Exception:
+            pass
     u.samples = [dunit.spec_brief(s) for s, _ in results[:2]]
     dunit.eval_d_unit(u, results)
 
